@@ -106,6 +106,23 @@ PROPS = {
         note="trusted: reference model in harness/src/props/c11.rs",
         assumptions=SIM_ASSUME + ["pipes accept all writes in this property (back-pressure is C12)", "whether XPUB hands malformed subscription messages to the application is not asserted"],
     ),
+    "C12": dict(
+        built=True, level="fault_enumeration", design_ref="4/C12",
+        technique="runtime monitoring under injected back-pressure: credit-limited pipes per subscriber; oracles = publish future never pending at logical quiescence, reference-decoded taps (well-formed, whole, order-preserving subsequence, complete for accepting subscribers), retained-byte accounting against HWM + one message, counting allocator charged only inside the publish call",
+        rule="faults = back-pressure scripts per subscriber connection {accept everything, partial writes of 1..5000 bytes, accept k in {0,1,2,5,9,100,70000} bytes then stall and resume later, never drain, broken pipe at a seeded publish} x 2..5 subscribers x PUB/XPUB, 200 publishes of sizes {10 B..1 MiB incl. 131071/131072/131073} per run plus runs of 2000 (quick) / 5000 small publishes; every run is non-trivial (>= 1 non-healthy subscriber in > 90% of runs, measured by the stall/broken counters); distinct by seed",
+        text="Seeded enumeration of back-pressure patterns against the real PUB/XPUB send path; verdicts on logical quiescence, never on wall-clock.",
+        note="trusted: pipe credit model; high-water mark 131072 bytes of asynchronous-codec's FramedWrite",
+        assumptions=SIM_ASSUME + ["retained bytes are only flushed by the next matching publish (best-effort flush in try_send): the harness publishes drain messages after a resume and asserts no delivery deadline for a subscriber that stalled"],
+        hang_is_violation=True,
+    ),
+    "C13": dict(
+        built=True, level="exploration", design_ref="4/C13",
+        technique="runtime monitor: per-peer fold of the subscription traffic on each wire tap compared with the API call history at every logical quiescent point; joins stalled by write credit between 'socket read its set' and 'peer registered' with an API call issued inside",
+        rule="targeted sweep: 8 prefix histories x {no earlier peer, one earlier peer} x join stalled after 0..15 bytes of re-subscription traffic x 6 calls issued inside the stalled join, followed by a plain late joiner and one more change (1536 histories, complete); plus seeded random histories of 12 operations over {subscribe, unsubscribe (4 topics, incl. repeated and absent), plain join, stalled join with inner call, one peer's connection failing}; non-trivial = every history (each has >= 1 join and >= 1 call); distinct by operation list. A run must be consistent with set semantics or with counted semantics at all points and for all peers",
+        text="Join points are enumerated byte by byte for the re-subscription window on one thread; true-parallel windows without a suspension point are out of reach of this leg.",
+        note="trusted: the publisher-side fold (multiset with floor-0 removal) is what a ZMTP publisher computes",
+        assumptions=SIM_ASSUME + ["the statement does not say whether repeated subscribes are counted: either reading is accepted if used consistently"],
+    ),
     "C14": dict(
         built=True, level="fault_enumeration", design_ref="4/C14",
         technique="runtime monitoring with injected cancellation: the pending recv future is dropped after j polls at every byte-arrival position; exactly-once/in-order history checker over later recv calls plus protocol-state probes (REQ still owes the recv, REP still refuses a reply)",
@@ -183,4 +200,4 @@ def write_manifest(path):
 
 
 HOOK_COMMITS = ["c9656b6"]
-FIX_COMMITS = ["48acad6", "f3d84e9", "be9d015", "f1a8fb7", "1cfb825", "8c4f97d", "f5bbfca", "5a43de4", "bb4d285", "5ad7c15", "d7cbe1d"]
+FIX_COMMITS = ["48acad6", "f3d84e9", "be9d015", "f1a8fb7", "1cfb825", "8c4f97d", "f5bbfca", "5a43de4", "bb4d285", "5ad7c15", "d7cbe1d", "4a082f5", "870d37c", "bbdc498"]
